@@ -142,7 +142,7 @@ def build(eng, shape):
             cands = [('db', k) for k in w.db_all if ('db', k) not in spent]
             for pr in range(r):
                 for oi in range(len(w.txs[pr].outs)):
-                    if ('mp', pr, oi) not in spent:
+                    if ('mp', pr, oi) not in spent and w.txs[pr].outs[oi][0] in CLASSES:   # data carriers are unspendable
                         cands.append(('mp', pr, oi))
             cands.append(('gen',))
             k = eng.choice(f't{r}_in{j}', len(cands))
@@ -360,6 +360,9 @@ def shapes(tier):
         {'db': 'A', 'txs': [{'ins': 1, 'outs': 'AA'}, {'ins': 2, 'outs': 'C'}],
          'events': [('arrive', [0, 1]), ('evict', [0, 1]), ('arrive', [0])]},
     ]
+    # a data-carrier output (OP_FALSE OP_RETURN) in front of spendable ones: positions must not shift
+    out.append({'db': 'AB', 'txs': [{'ins': 1, 'outs': 'FAB'}, {'ins': 1, 'outs': 'C'}],
+                'events': [('arrive', [0]), ('arrive', [1]), ('confirm', [0])]})
     # several fetch batches in one refresh (batch size scaled to 1): parents, children and confirmed inputs spread
     # over batches that are merged as they complete
     out.append({'db': 'AB', 'txs': [t2, t3, t1], 'events': [('arrive', [0, 1, 2])], 'batch': 1})
